@@ -194,6 +194,68 @@ func (f *frameRun) object(name string) interface{} {
 	}
 }
 
+// shallow: what an option value IS (identity of the objects it refers to, plain values and the
+// content of plain slices such as Submatrix), not the state of the buffers it points to
+func shallow(sb *strings.Builder, v reflect.Value, depth int) {
+	if !v.IsValid() {
+		sb.WriteString("nil")
+		return
+	}
+	switch v.Kind() {
+	case reflect.Ptr, reflect.Func, reflect.Map, reflect.Chan, reflect.UnsafePointer:
+		fmt.Fprintf(sb, "@%x", v.Pointer())
+	case reflect.Interface:
+		if v.IsNil() {
+			sb.WriteString("nil")
+		} else {
+			shallow(sb, v.Elem(), depth)
+		}
+	case reflect.Slice:
+		fmt.Fprintf(sb, "[@%x len=%d", v.Pointer(), v.Len())
+		switch v.Type().Elem().Kind() {
+		case reflect.Bool, reflect.Int, reflect.Float64, reflect.Int64:
+			for i := 0; i < v.Len(); i++ {
+				fmt.Fprintf(sb, " %v", v.Index(i))
+			}
+		}
+		sb.WriteString("]")
+	case reflect.Struct:
+		sb.WriteString("{")
+		if depth < 3 {
+			for i := 0; i < v.NumField(); i++ {
+				shallow(sb, v.Field(i), depth+1)
+				sb.WriteString(",")
+			}
+		}
+		sb.WriteString("}")
+	default:
+		fmt.Fprintf(sb, "%v", v)
+	}
+}
+
+// keep turns the option list into a slice the CALLER keeps: spare capacity behind the options
+// (filled with markers), passed as opts... ; role "opts" digests length, every element and the
+// spare region
+func (f *frameRun) keep(args []interface{}) []interface{} {
+	k := make([]interface{}, len(args), len(args)+4)
+	copy(k, args)
+	full := k[:cap(k)]
+	for i := len(args); i < len(full); i++ {
+		full[i] = fmt.Sprintf("spare-%d", i)
+	}
+	f.role("opts", func() interface{} {
+		var sb strings.Builder
+		fmt.Fprintf(&sb, "opts len=%d:", len(k))
+		for _, x := range full {
+			fmt.Fprintf(&sb, "%T=", x)
+			shallow(&sb, reflect.ValueOf(x), 0)
+			sb.WriteString("|")
+		}
+		return sb.String()
+	})
+	return k
+}
+
 func (f *frameRun) structural(name string, x interface{}) {
 	if f.strct == nil {
 		f.strct = map[string]interface{}{}
@@ -390,6 +452,7 @@ func buildAlgorithm(c *fcase, cache map[string]interface{}) *frameRun {
 			f.role("IS.T", is.T)
 			args = append(args, is)
 		}
+		args = f.keep(args)
 		f.call = func() error { _, _, err := cholesky.Run(a, args...); return err }
 	case "determinant.Run":
 		a := in("a", spd(e, n)).(Matrix)
@@ -403,6 +466,7 @@ func buildAlgorithm(c *fcase, cache map[string]interface{}) *frameRun {
 			f.role("IS.T", is.Cholesky.T)
 			args = append(args, is)
 		}
+		args = f.keep(args)
 		f.call = func() error { _, err := determinant.Run(a, args...); return err }
 	case "eigensystem.Run":
 		var a Matrix
@@ -423,6 +487,7 @@ func buildAlgorithm(c *fcase, cache map[string]interface{}) *frameRun {
 			f.role("IS.U", is.QrAlgorithm.U)
 			args = append(args, is)
 		}
+		args = f.keep(args)
 		f.call = func() error { _, _, err := eigensystem.Run(a, args...); return err }
 	case "gaussJordan.Run":
 		var a Matrix
@@ -446,6 +511,7 @@ func buildAlgorithm(c *fcase, cache map[string]interface{}) *frameRun {
 			f.role("submatrix", sub)
 			args = append(args, gaussJordan.Submatrix{sub})
 		}
+		args = f.keep(args)
 		f.call = func() error { return gaussJordan.Run(a, x, b, args...) }
 	case "gramSchmidt.Run":
 		a := in("a", general(e, n)).(Matrix)
@@ -460,6 +526,7 @@ func buildAlgorithm(c *fcase, cache map[string]interface{}) *frameRun {
 			f.role("IS.R", is.R)
 			args = append(args, is)
 		}
+		args = f.keep(args)
 		f.call = func() error { _, _, err := gramSchmidt.Run(a, args...); return err }
 	case "hessenbergReduction.Run":
 		a := in("a", general(e, n)).(Matrix)
@@ -477,6 +544,7 @@ func buildAlgorithm(c *fcase, cache map[string]interface{}) *frameRun {
 			f.role("IS.T4", is.T4)
 			args = append(args, is)
 		}
+		args = f.keep(args)
 		f.call = func() error { _, _, err := hessenbergReduction.Run(a, args...); return err }
 	case "householderBidiagonalization.Run":
 		a := in("a", tall(e, n)).(Matrix)
@@ -496,6 +564,7 @@ func buildAlgorithm(c *fcase, cache map[string]interface{}) *frameRun {
 			f.role("IS.T4", is.T4)
 			args = append(args, is)
 		}
+		args = f.keep(args)
 		f.call = func() error { _, _, _, err := householderBidiagonalization.Run(a, args...); return err }
 	case "householderTridiagonalization.Run":
 		a := in("a", spd(e, n)).(Matrix)
@@ -513,6 +582,7 @@ func buildAlgorithm(c *fcase, cache map[string]interface{}) *frameRun {
 			f.role("IS.T4", is.T4)
 			args = append(args, is)
 		}
+		args = f.keep(args)
 		f.call = func() error { _, _, err := householderTridiagonalization.Run(a, args...); return err }
 	case "matrixInverse.Run":
 		var a Matrix
@@ -526,6 +596,14 @@ func buildAlgorithm(c *fcase, cache map[string]interface{}) *frameRun {
 		}
 		in("matrix", a)
 		args := []interface{}{matrixInverse.PositiveDefinite{c.opt("PositiveDefinite")}, matrixInverse.UpperTriangular{c.opt("UpperTriangular")}}
+		if c.opt("Submatrix") { // "all other arguments are passed to the Gauss-Jordan algorithm"
+			sub := make([]bool, n)
+			for i := range sub {
+				sub[i] = true
+			}
+			f.role("submatrix", sub)
+			args = append(args, gaussJordan.Submatrix{sub})
+		}
 		if bufs {
 			is := &matrixInverse.InSitu{Id: nullM(e, n, n), A: nullM(e, n, n), B: nullV(e, n)}
 			is = reuseIS(f, cache, c, is).(*matrixInverse.InSitu)
@@ -537,6 +615,7 @@ func buildAlgorithm(c *fcase, cache map[string]interface{}) *frameRun {
 			f.role("IS.D", is.Cholesky.D)
 			args = append(args, is)
 		}
+		args = f.keep(args)
 		f.call = func() error { _, err := matrixInverse.Run(a, args...); return err }
 	case "msqrt.Run":
 		a := in("matrix", spd(e, n)).(Matrix)
@@ -565,6 +644,7 @@ func buildAlgorithm(c *fcase, cache map[string]interface{}) *frameRun {
 			f.role("IS.Nu", is.Nu)
 			args = append(args, is)
 		}
+		args = f.keep(args)
 		f.call = func() error { _, _, err := qrAlgorithm.Run(a, args...); return err }
 	case "svd.Run":
 		a := in("a", tall(e, n)).(Matrix)
@@ -578,6 +658,7 @@ func buildAlgorithm(c *fcase, cache map[string]interface{}) *frameRun {
 			f.role("IS.V", is.V)
 			args = append(args, is)
 		}
+		args = f.keep(args)
 		f.call = func() error { _, _, _, err := svd.Run(a, args...); return err }
 	case "givensRotation.Run":
 		a, b, cc, s := NewScalar(elemType(e), scaled(3, 0)), NewScalar(elemType(e), scaled(4, 1)), nullS(e), nullS(e)
@@ -643,6 +724,7 @@ func buildAlgorithm(c *fcase, cache map[string]interface{}) *frameRun {
 		} else {
 			args = append(args, bfgs.MaxIterations{200})
 		}
+		args = f.keep(args)
 		f.call = func() error { _, err := bfgs.Run(quadratic, x0, args...); return err }
 	case "rprop.Run", "rprop.RunGradient":
 		eta := []float64{1.2, 0.5}
@@ -664,6 +746,7 @@ func buildAlgorithm(c *fcase, cache map[string]interface{}) *frameRun {
 			if c.opt("Constraints") {
 				args = append(args, rprop.Constraints{func(x Vector) bool { return true }})
 			}
+			args = f.keep(args)
 			f.call = func() error { _, err := rprop.Run(quadratic, x0, 0.1, eta, args...); return err }
 		} else {
 			x0 := ramp("float64", n).(DenseFloat64Vector)
@@ -671,6 +754,7 @@ func buildAlgorithm(c *fcase, cache map[string]interface{}) *frameRun {
 			if c.opt("Constraints") {
 				args = append(args, rprop.ConstConstraints{func(x ConstVector) bool { return true }})
 			}
+			args = f.keep(args)
 			f.call = func() error {
 				_, err := rprop.RunGradient(rprop.DenseGradientF(quadraticGradient), x0, 0.1, eta, args...)
 				return err
@@ -691,6 +775,7 @@ func buildAlgorithm(c *fcase, cache map[string]interface{}) *frameRun {
 			if c.opt("Constraints") {
 				args = append(args, adam.Constraints{func(x Vector) bool { return true }})
 			}
+			args = f.keep(args)
 			f.call = func() error { _, err := adam.Run(quadratic, x0, args...); return err }
 		} else {
 			x0 := ramp("float64", n).(DenseFloat64Vector)
@@ -698,6 +783,7 @@ func buildAlgorithm(c *fcase, cache map[string]interface{}) *frameRun {
 			if c.opt("Constraints") {
 				args = append(args, adam.ConstConstraints{func(x ConstVector) bool { return true }})
 			}
+			args = f.keep(args)
 			f.call = func() error {
 				_, err := adam.RunGradient(adam.DenseGradientF(quadraticGradient), x0, args...)
 				return err
@@ -710,6 +796,7 @@ func buildAlgorithm(c *fcase, cache map[string]interface{}) *frameRun {
 		if c.opt("Hook") {
 			args = append(args, gradientDescent.Hook{func(g []float64, x ConstVector, y ConstScalar) bool { k++; return k > 500 }})
 		}
+		args = f.keep(args)
 		f.call = func() error { _, err := gradientDescent.Run(quadratic, x0, 0.1, args...); return err }
 	case "newton.RunRoot", "newton.RunCrit", "newton.RunMin":
 		x := in("x", ramp(e, n)).(Vector)
@@ -736,16 +823,19 @@ func buildAlgorithm(c *fcase, cache map[string]interface{}) *frameRun {
 			if c.opt("Hook") {
 				args = append(args, newton.HookRoot{func(x ConstVector, J ConstMatrix, y ConstVector) bool { return false }})
 			}
+			args = f.keep(args)
 			f.call = func() error { _, err := newton.RunRoot(rootFn, x, args...); return err }
 		case "newton.RunCrit":
 			if c.opt("Hook") {
 				args = append(args, newton.HookCrit{func(x ConstVector, J ConstMatrix, y ConstVector) bool { return false }})
 			}
+			args = f.keep(args)
 			f.call = func() error { _, err := newton.RunCrit(quadratic, x, args...); return err }
 		default:
 			if c.opt("Hook") {
 				args = append(args, newton.HookMin{func(x, g ConstVector, H ConstMatrix, y ConstScalar) bool { return false }})
 			}
+			args = f.keep(args)
 			f.call = func() error { _, err := newton.RunMin(quadratic, x, args...); return err }
 		}
 	case "saga.Run":
@@ -776,6 +866,7 @@ func buildAlgorithm(c *fcase, cache map[string]interface{}) *frameRun {
 			f.role("IS.T1", is.T1)
 			args = append(args, is)
 		}
+		args = f.keep(args)
 		f.call = func() error { _, _, err := saga.Run(obj, 4, x, args...); return err }
 	case "blahut.Run":
 		var ch Matrix
@@ -794,6 +885,7 @@ func buildAlgorithm(c *fcase, cache map[string]interface{}) *frameRun {
 		if c.opt("Lambda") {
 			args = append(args, blahut.Lambda{0.5})
 		}
+		args = f.keep(args)
 		f.call = func() error { blahut.Run(ch, p, 5, args...); return nil }
 	default:
 		return nil
